@@ -52,7 +52,7 @@ fn def(prop: &str) -> Option<Def> {
             cases: (240_000, 6_000_000),
             nontrivial: |c| has(c, "issue-with-idle-conn-available") || has(c, "issue-with-h2-conn-available") || has(c, "h2-issue-during-h2-dial") || has(c, "cancel-with-healthy-connections"),
             rule: "history as for C02 with max_idle=32 and no expiry; non-trivial = a request was issued while a reusable connection was certainly available, or an HTTP/2 request was issued while an HTTP/2 dial to its origin was in flight, or a request that never used a connection was cancelled while healthy connections existed",
-            min_class: vec![("issue-with-idle-conn-available", 0.05), ("issue-with-h2-conn-available", 0.05), ("h2-issue-during-h2-dial", 0.05), ("cancel-with-healthy-connections", 0.05)],
+            min_class: vec![("issue-with-idle-conn-available", 0.05), ("issue-with-h2-conn-available", 0.05), ("h2-issue-during-h2-dial", 0.05), ("cancel-with-healthy-connections", 0.035)],
         },
         "C05" => Def {
             prop: "C05",
@@ -82,7 +82,7 @@ fn def(prop: &str) -> Option<Def> {
             cases: (240_000, 6_000_000),
             nontrivial: |c| has(c, "release-while-polled-request-waits") || has(c, "dial-preempted") || has(c, "cancel-while-dialing"),
             rule: "history as for C02, single origin, slow dials; non-trivial = a released connection re-entered the pool strictly after a still-dialing request's first poll, or a dial was pre-empted, or a dialing request was cancelled",
-            min_class: vec![("release-while-polled-request-waits", 0.15), ("cancel-while-dialing", 0.05)],
+            min_class: vec![("release-while-polled-request-waits", 0.1), ("cancel-while-dialing", 0.05)],
         },
         "C15" => Def {
             prop: "C15",
